@@ -118,3 +118,31 @@ func f(n string) {
 		t.Fatal(names, opaque)
 	}
 }
+
+func TestLibraryCoversSubPackagesButNotCommands(t *testing.T) {
+	dir := t.TempDir()
+	w := func(rel, src string) {
+		os.MkdirAll(filepath.Dir(filepath.Join(dir, rel)), 0755)
+		os.WriteFile(filepath.Join(dir, rel), []byte(src), 0644)
+	}
+	w("go.mod", "module example.com/x\n\ngo 1.11\n")
+	w("a.go", "package x\n\nfunc A() int {\n\treturn 1\n}\n")
+	w("internal/idx/idx.go", "package idx\n\nimport \"sync\"\n\nvar once sync.Once\n\nfunc B() {\n\tonce.Do(func() {\n\t\tprintln(1)\n\t})\n}\n")
+	w("cmd/tool/main.go", "package main\n\nfunc main() {\n\tprintln(2)\n}\n")
+	w("testdata/t.go", "package broken (\n")
+	rep, err := Library(dir)
+	if err != nil {
+		t.Fatal(err)
+	}
+	sub, _ := os.ReadFile(filepath.Join(dir, "internal/idx/idx.go"))
+	if !strings.Contains(string(sub), "zzsimrt.Yield(") || !strings.Contains(string(sub), `"example.com/x/zzsimrt/simsync"`) {
+		t.Fatalf("sub-package not instrumented:\n%s", sub)
+	}
+	cmd, _ := os.ReadFile(filepath.Join(dir, "cmd/tool/main.go"))
+	if strings.Contains(string(cmd), "zzsimrt") {
+		t.Fatal("command instrumented")
+	}
+	if len(rep.SyncFiles) != 1 || rep.SyncFiles[0] != "internal/idx/idx.go" {
+		t.Fatal(rep.SyncFiles)
+	}
+}
